@@ -88,7 +88,7 @@ ik_cmp(uint8_t u1, uint64_t t1, uint8_t u2, uint64_t t2) {
 }
 
 #ifndef VP_KEYMAX
-#define VP_KEYMAX 255   /* user keys 0..VP_KEYMAX (1 byte) */
+#define VP_KEYMAX 15    /* user keys 0..VP_KEYMAX (1 byte): the code only compares them; 16 values realise every order pattern of <= 7 files + a range (measured: full 0..255 costs 10x solver time) */
 #endif
 
 static uint8_t
